@@ -1,7 +1,8 @@
 #!/usr/bin/env python3
 """Confirm and evaluate mutations delivered by sub-agents.
 
-usage: eval_mutations.py <PID> [--keep]
+usage: eval_mutations.py <PID> [--keep]        (fresh deliveries in /tmp/wt-<PID>/mutations/)
+       eval_mutations.py --seeded [name ...]  (re-evaluate the stored /verif/seeded/<name>/ and refresh meta.json)
 For every /tmp/wt-<PID>/mutations/m<k>.diff:
   1. scratch copy of /repo (Cargo.*, src) outside /repo and /verif;
   2. the demo passes on the unmodified copy;
@@ -24,11 +25,13 @@ def sh(cmd, cwd, env=None, timeout=1200):
     return p.returncode, p.stdout
 
 
-def evaluate(pid, k, keep):
+def evaluate(pid, k, keep, stored=None):
     mdir = '/tmp/wt-%s/mutations' % pid
     diff = os.path.join(mdir, 'm%d.diff' % k)
     demo = os.path.join(mdir, 'm%d_demo.rs' % k)
     note = os.path.join(mdir, 'm%d.md' % k)
+    if stored:
+        diff, demo, note = os.path.join(stored, 'patch.diff'), os.path.join(stored, 'demo.rs'), os.path.join(stored, 'none')
     if not (os.path.exists(diff) and os.path.exists(demo)):
         return None
     td = tempfile.mkdtemp(prefix='evalmut-')
@@ -74,7 +77,15 @@ def evaluate(pid, k, keep):
         res['violation_keys'] = det
         res['own_property_detects'] = pid in det
         res['confirmed'] = bool(res['demo_passes_unmodified'] and res['suite_passes'] and res['doc_tests_pass'] and res['demo_fails_with_mutation'])
-        if keep and res['confirmed']:
+        if stored and res['confirmed']:
+            mp = os.path.join(stored, 'meta.json')
+            meta = json.load(open(mp))
+            meta['detected_by'] = res['detected_by']
+            meta['violation_keys'] = det
+            meta['confirmed'].update({'compiles_and_suite_passes': res['suite_passes'], 'doc_tests_pass': res['doc_tests_pass'],
+                                      'demo_passes_unmodified': res['demo_passes_unmodified'], 'demo_fails_with_mutation': res['demo_fails_with_mutation']})
+            json.dump(meta, open(mp, 'w'), indent=1)
+        elif keep and res['confirmed']:
             dst = os.path.join(VERIF, 'seeded', '%s-m%d' % (pid, k))
             os.makedirs(dst, exist_ok=True)
             shutil.copy(diff, os.path.join(dst, 'patch.diff'))
@@ -91,7 +102,25 @@ def evaluate(pid, k, keep):
         shutil.rmtree(td, ignore_errors=True)
 
 
+def main_seeded(names):
+    sdir = os.path.join(VERIF, 'seeded')
+    names = names or sorted(os.listdir(sdir))
+    bad = 0
+    for name in names:
+        d = os.path.join(sdir, name)
+        pid, k = name.split('-m')
+        r = evaluate(pid, int(k), False, stored=d)
+        own = r.get('own_property_detects')
+        print(name, 'confirmed' if r.get('confirmed') else 'NOT-CONFIRMED %s' % {kk: v for kk, v in r.items() if kk in ('demo_passes_unmodified', 'applies', 'suite_passes', 'doc_tests_pass', 'demo_fails_with_mutation', 'error')},
+              'own' if own else 'OWN-MISSED', r.get('detected_by'), flush=True)
+        if not (r.get('confirmed') and own):
+            bad += 1
+    return 1 if bad else 0
+
+
 def main():
+    if sys.argv[1] == '--seeded':
+        return main_seeded(sys.argv[2:])
     pid = sys.argv[1]
     keep = '--keep' in sys.argv
     out = []
